@@ -244,9 +244,9 @@ impl AuthRxBuilder {
             && self.reason_string.is_none()
             && self.user_property.is_none();
 
-        if !shortened
-            && (self.authentication_method.is_none() || self.authentication_data.is_none())
-        {
+        // Only the authentication method is mandatory in an AUTH sent by the server,
+        // authentication data is optional.
+        if !shortened && self.authentication_method.is_none() {
             Err(MandatoryPropertyMissing.into())
         } else {
             Ok(())
